@@ -2,6 +2,11 @@
 
 package actionlint
 
+import (
+	"io"
+	"strconv"
+)
+
 // C02 — output is a deterministic function of the inputs (hash-map iteration
 // order). Self-composition: a workflow is linted once with insertion-ordered
 // maps while the engine records which functions range over a map of two or
@@ -305,4 +310,60 @@ jobs:
 	verifMapOrder(false)
 	verifReach("compared")
 	verifCheckf(verifSameSeq(e0, e1), "output-depends-on-map-iteration-order", verifErrTextConc(e1))
+}
+
+var verifC02Stream string
+
+func verifC02Print(f *ErrorFormatter, out io.Writer, t []*ErrorTemplateFields) error {
+	s := ""
+	for _, e := range t {
+		s += e.Filepath + ":" + strconv.Itoa(e.Line) + ":" + strconv.Itoa(e.Column) + ": " + e.Message + "\n"
+	}
+	verifC02Stream = s
+	return nil
+}
+
+// HarnessC02Format: three files linted in one run with a custom format. The
+// per-file goroutines run as wholes in each of the 6 possible completion
+// orders (the order is the harness's choice; every such order is a schedule
+// of the real program since the goroutines do not wait for each other). The
+// list handed to the template printer and the returned list must not depend
+// on it. Natively: the first file is made slow (many jobs), 10 runs.
+func HarnessC02Format() {
+	perms := [][]int{{0, 1, 2}, {0, 2, 1}, {1, 0, 2}, {1, 2, 0}, {2, 0, 1}, {2, 1, 0}}
+	perm := perms[verifChoose("completion", len(perms))]
+	wf := func(k int) string {
+		return "on: push\njobs:\n  j" + strconv.Itoa(k) + ":\n    runs-on: ubuntu-latest\n    steps:\n      - run: echo ${{ unknown" + strconv.Itoa(k) + ".x }}\n"
+	}
+	paths := []string{"/r/.github/workflows/a.yml", "/r/.github/workflows/b.yml", "/r/.github/workflows/c.yml"}
+	if verifIsNative() {
+		verifC02NativeFormat()
+		return
+	}
+	verifC10Files = map[string]string{paths[0]: wf(0), paths[1]: wf(1), paths[2]: wf(2)}
+	verifC10Cfg = map[string]*Config{}
+	verifSetCwd("/")
+	verifOverride("os.ReadFile", verifC10ReadFile)
+	verifOverride("findProject", verifC10FindProject)
+	verifOverride("loadRepoConfig", verifC10RepoConfig)
+	verifOverride("(*ErrorFormatter).Print", verifC02Print)
+	run := func(order []int) (string, string) {
+		l := &Linter{projects: NewProjects(), cwd: "", out: nil, errFmt: &ErrorFormatter{rules: map[string]*ruleTemplateFields{}}}
+		verifC02Stream = ""
+		verifGoOrder(order)
+		errs, err := l.LintFiles(paths, nil)
+		verifGoOrder(nil)
+		verifCheck(err == nil, "lint-failed")
+		ret := ""
+		for _, e := range errs {
+			ret += e.Filepath + ":" + strconv.Itoa(e.Line) + ": " + e.Message + "\n"
+		}
+		return verifC02Stream, ret
+	}
+	s0, r0 := run([]int{0, 1, 2})
+	s1, r1 := run(perm)
+	verifReach("compared")
+	verifCheckf(len(s0) > 0 && len(r0) > 0, "baseline-lost-its-diagnostics", s0)
+	verifCheckf(s0 == s1, "formatted-output-depends-on-goroutine-completion-order", s1)
+	verifCheckf(r0 == r1, "returned-diagnostics-depend-on-goroutine-completion-order", r1)
 }
